@@ -13,7 +13,7 @@ type ArMember struct {
 	Owner     int64  `json:"uid"`
 	Group     int64  `json:"gid"`
 	Mode      string `json:"mode"`
-	Blank     bool   `json:"blank,omitempty"` // numeric fields other than size left blank
+	Blank     bool   `json:"blank,omitempty"`   // numeric fields other than size left blank
 	ZeroPad   bool   `json:"zeropad,omitempty"` // numeric fields written with leading zeros (still decimal)
 	Data      []byte `json:"data"`
 }
